@@ -241,6 +241,8 @@ def _exhaust(ctx, files, max_out, variants=('plain', 'dot', 'updown')):
         if not lg.valid(g):
             continue
         chunk.append(g)
+        if not ctx.samples:
+            ctx.sample({'graph': g, 'files': render(g)})
         if len(chunk) >= 300:
             run_graphs(ctx, chunk)
             chunk = []
